@@ -87,6 +87,13 @@ type FailWhen struct {
 	NotBefore       int
 }
 
+// ClearFailNext forgets every planned one-shot fault that has not fired yet.
+func (g *Gate) ClearFailNext() {
+	g.mu.Lock()
+	g.failNext = nil
+	g.mu.Unlock()
+}
+
 // FailNext plans a one-shot injected error chosen by the kind of call.
 func (g *Gate) FailNext(f FailWhen) {
 	g.mu.Lock()
